@@ -30,7 +30,7 @@ LEVEL = "proof"
 
 END_NS = 10 ** 12
 COQ_FILES = ["C08/Model.v", "C08/Policies.v", "C08/PolicyThms.v", "C08/Pipeline.v", "C08/IndModel.v", "C08/IndThms.v",
-             "Base/PyLib.v", "Gen/QueuePolicyGen.v", "C08/GenTie.v", "Gen/ConcurrencyGen.v", "C08/ConcTie.v", "C08/Props.v"]
+             "Base/PyLib.v", "Gen/QueuePolicyGen.v", "C08/GenTie.v", "Gen/ConcurrencyGen.v", "C08/ConcTie.v", "Gen/DeadlineGen.v", "C08/DeadlineTie.v", "C08/Props.v"]
 
 
 # --------------------------------------------------------------------------- items / policies
@@ -1532,6 +1532,8 @@ TRUSTED = [
     "arbitrary integer per call",
     "the same translator regenerates FixedConcurrency / DynamicConcurrency / WeightedConcurrency from components/server/concurrency.py "
     "(ConcurrencyGen; C08/ConcTie.v proves every operation equal to the model's cm_step); logging calls are no-ops",
+    "... and DeadlineQueue.push/pop/is_empty/__len__ from components/queue_policies/deadline_queue.py (DeadlineGen; C08/DeadlineTie.v): "
+    "`while heap: x = heappop(heap)` is a fold over the current heap, _get_deadline(item) an arbitrary instant per call, _now() the clock reading",
     "the world model lets ANY pending pipeline event fire next; the real engine's choice (heap order) is not modelled here, the "
     "correspondence check verifies that every recorded run is one of the world's schedules",
 ]
@@ -1556,10 +1558,11 @@ def run(ctx):
     from props import pygen
     ok, info = pygen.regenerate("QueuePolicyGen")     # components/queue_policy.py translated from $HS_REPO by py2coq
     ok2, info2 = pygen.regenerate("ConcurrencyGen")   # components/server/concurrency.py
-    ctx.coverage["regenerated"] = [info, info2]
+    ok3, info3 = pygen.regenerate("DeadlineGen")      # components/queue_policies/deadline_queue.py
+    ctx.coverage["regenerated"] = [info, info2, info3]
     ctx.prove(COQ_FILES, allowed_axioms=(), trusted_base=TRUSTED)
-    if not (ok and ok2) and ctx.pending_obligation_violation:
-        ctx.pending_obligation_violation["translator"] = info.get("error") or info2.get("error")
+    if not (ok and ok2 and ok3) and ctx.pending_obligation_violation:
+        ctx.pending_obligation_violation["translator"] = info.get("error") or info2.get("error") or info3.get("error")
     stats = []
     for fam, n in ((FAMILIES[0], ctx.n(250, 2000)), (FAMILIES[1], ctx.n(250, 1500)), (FAMILIES[2], ctx.n(200, 1500))):
         stats.append(run_family(_Sharded(ctx, 400), fam, n))
